@@ -103,8 +103,35 @@ func TestC02(t *testing.T) {
 		ts := GenBlockTimes(t, sched, lo, hi, 1, 14)
 		lastMint := nsTime(lo - secNs)
 
+		viaGov := rapid.IntRange(0, 3).Draw(t, "installedByGovernance")
+		// install brings the configuration onto a fresh chain (used for the run and for its twin)
+		install := func(w *World, ctx sdk.Context) {
+			if viaGov == 0 {
+				setupMinter(t, w, ctx, params, cfg.FirstID, lastMint)
+				return
+			}
+			// the way it happens in production: the chain runs a no-minting configuration, and
+			// governance installs the schedule (either update message) before anything was minted;
+			// what is emitted afterwards is the installed schedule
+			open := mintertypes.Params{MintDenom: cfg.Denom, StartTime: nsTime(lo - 30*secNs),
+				Minters: []*mintertypes.Minter{{SequenceId: cfg.FirstID, Config: mustAny(&mintertypes.NoMinting{})}}}
+			setupMinter(t, w, ctx, open, cfg.FirstID, nsTime(lo-20*secNs))
+			if _, _, pan := mintBlock(w, ctx, cfg.Denom, lo-10*secNs); pan != nil {
+				t.Fatalf("block under the no-minting configuration panicked: %v", pan)
+			}
+			var msg sdk.Msg = &mintertypes.MsgUpdateMintersParams{Authority: GovAuthority(), StartTime: params.StartTime, Minters: params.Minters}
+			if viaGov == 1 {
+				msg = &mintertypes.MsgUpdateParams{Authority: GovAuthority(), MintDenom: params.MintDenom, StartTime: params.StartTime, Minters: params.Minters}
+			}
+			if res := RunMsg(w.App, ctx.WithBlockTime(nsTime(lo-5*secNs)), msg); !res.OK() {
+				t.Fatalf("governance could not install a valid minter configuration (%T): %v %v\n%+v", msg, res.Err, res.Panic, cfg)
+			}
+		}
 		w, ctx := Case()
-		setupMinter(t, w, ctx, params, cfg.FirstID, lastMint)
+		install(w, ctx)
+		if viaGov != 0 {
+			st.Class("schedule_installed_by_governance")
+		}
 
 		total := new(big.Int)
 		classes := map[string]bool{}
@@ -226,7 +253,7 @@ func TestC02(t *testing.T) {
 
 		// (c) metamorphic twin: one block at finalT
 		w2, ctx2 := Case()
-		setupMinter(t, w2, ctx2, params, cfg.FirstID, lastMint)
+		install(w2, ctx2)
 		d2, _, pan := mintBlock(w2, ctx2, cfg.Denom, finalT)
 		if pan != nil {
 			t.Fatalf("twin: BeginBlocker panicked: %v", pan)
